@@ -184,6 +184,14 @@ def int_boundary(w):
         s.add(1 << k)
         s.add(((1 << k) - 1) & m)
         s.add((m << k) & m)
+    # integers around the rounding midpoints of int -> f32 (24-bit significand) and int -> f64 (53 bits) conversions: exact ties with an
+    # even / odd significand and their neighbours one unit away (where rounding twice, e.g. through double, differs from rounding once)
+    for prec in (24, 53):
+        for e in range(prec + 1, w):
+            base, half = 1 << e, 1 << (e - prec)
+            for x in (base + half, base + half + 1, base + half - 1, base + 3 * half, base + 3 * half - 1, base + 3 * half + 1):
+                s.add(x & m)
+                s.add((-x) & m)
     return sorted(s)
 
 
